@@ -319,15 +319,20 @@ pub fn exact_with_locals(n: usize, size: usize) -> Vec<u8> {
         let mut f = Function::new([(1, ValType::I32)]);
         // body bytes: 3 (one group: count, n, type) + 3 per `local.get 0; drop`… + 1 (end)
         let target = if i == 0 { size } else { 7 + 3 * (i % 3) };
-        let rem = target.saturating_sub(4);
+        // nothing walrus elides (the output body then has the input's size): 3-byte pairs
+        // `i32.const 5; drop` and 4-byte pairs `i32.const 100; drop`
+        let rem = target.saturating_sub(4 + 3);
         f.instruction(&Instruction::LocalGet(0));
         f.instruction(&Instruction::Drop);
-        for _ in 1..rem / 3 {
-            f.instruction(&Instruction::I32Const(5));
+        let four = rem % 3;
+        let three = (rem - 4 * four.min(rem / 4)) / 3;
+        for _ in 0..four.min(rem / 4) {
+            f.instruction(&Instruction::I32Const(100));
             f.instruction(&Instruction::Drop);
         }
-        for _ in 0..rem % 3 {
-            f.instruction(&Instruction::Nop);
+        for _ in 0..three {
+            f.instruction(&Instruction::I32Const(5));
+            f.instruction(&Instruction::Drop);
         }
         f.instruction(&Instruction::End);
         code.function(&f);
